@@ -206,7 +206,7 @@ where
         Some(f) => f,
         None => return None,
     };
-    if r.custom.is_some() || !m.alt_users.is_empty() {
+    if r.custom.is_some() || !m.alt_users.is_empty() || m.user_built {
         return None; // user-constructed error (A7)
     }
     // token index whose offset equals the span start
